@@ -42,16 +42,18 @@ TAGS = {
     20: 'to_dict() is not accepted by json.dumps', 21: 'different dataset but same key',
     23: 'equal datasets (DataFrame.equals) but different DatasetHash', 24: 'different datasets but the same DatasetHash',
     25: 'DatasetHash differs between interpreter processes',
+    43: 'convert_model(m, generic) == m differs from model', 44: 'convert_model(m, generic) is not equal to the model',
     40: 'Results.to_json differs from model', 41: 'read_results differs from model',
     42: 'read_results(r.to_json()) does not give the results object back',
     30: 'DatasetHash equality differs from equality of the modelled hash input', 31: 'DataFrame.equals differs from model',
 }
-CORR = (1, 2, 3, 4, 5, 6, 7, 8, 9, 10, 30, 31, 40, 41)
-ORACLE = (11, 12, 13, 14, 15, 16, 17, 18, 19, 20, 21, 23, 24, 25, 42)
+CORR = (1, 2, 3, 4, 5, 6, 7, 8, 9, 10, 30, 31, 40, 41, 43)
+ORACLE = (11, 12, 13, 14, 15, 16, 17, 18, 19, 20, 21, 23, 24, 25, 42, 44)
 F_DERIV, F_INTKEY, F_SREPR, F_EQDOSING, F_TOOLORDER, F_INDEXREPR = (
     'C12-DERIVATIVES-TEXT', 'C12-JSON-INTKEY', 'C12-SREPR-DISTRIBUTES', 'C12-EQ-DOSING-ORDER',
     'C12-HASH-TOOLOPTIONS-ORDER', 'C12-DATASET-INDEX-REPR')
 F_RESPATH = 'C12-RESULTS-PATH-READ'
+F_GENVT, F_GRADDEF = 'C12-GENERIC-VALUE-TYPE', 'C12-MODELFIT-GRADIENTS-DEFAULT'
 # fixed in /repo (cee2988, ddb8814, eb87ce1, 30e26dc, e582408): C12-JSON-TUPLE, C12-HASH-ORDER, C12-HASH-DEPVAR-ORDER,
 # C12-GENERIC-READ, C12-CATEGORIES-MAPPING -- their witnesses stay in regress/C12; a recurrence is a VIOLATION
 
@@ -120,6 +122,7 @@ def engine_ok(x):
 def generic_roundtrip(m, rundir):
     from pharmpy.modeling import convert_model, read_model, read_model_from_string, write_model
     g = convert_model(m, 'generic')
+    conv = safe_eq(g, m)
     try:
         viastr = safe_eq(read_model_from_string(g.code), m)
     except Exception:
@@ -130,7 +133,7 @@ def generic_roundtrip(m, rundir):
         viafile = bool(safe_eq(read_model(d / 'model.ppmod'), m))
     except Exception:
         viafile = False
-    return viastr, viafile
+    return viastr, viafile, conv
 
 
 def cobool(b):
@@ -175,9 +178,9 @@ def observe(kind, x, ctx=None, with_generic=False):
     else:
         d2, eq_json, idem = None, None, True
     ok, nleaves = engine_ok(x)
-    viastr = viafile = None
+    viastr = viafile = conv = None
     if kind == 'model' and with_generic and dumps_ok:
-        viastr, viafile = generic_roundtrip(x, ctx.rundir)
+        viastr, viafile, conv = generic_roundtrip(x, ctx.rundir)
     cd = ex.canon_dict(kind, d)
     cd2 = ex.canon_dict(kind, d2) if dumps_ok else None
     enc = None
@@ -199,7 +202,7 @@ def observe(kind, x, ctx=None, with_generic=False):
         cobool(eq_back), cobool(eq_json), ex.cbool(dumps_ok),
         ex.out_preds(x) if kind == 'csys' else 'None',
         ex.cbool(ok), ex.cbool(idem), cobool(viastr), cobool(viafile),
-        'None' if enc is None else f'({enc})']) + ')')
+        'None' if enc is None else f'({enc})', cobool(conv)]) + ')')
     info.update({'kind': kind, 'leaves': nleaves, 'text_len': len(js), 'eq_back': eq_back, 'eq_json': eq_json,
                  'dumps_ok': dumps_ok})
     return term, info
@@ -955,6 +958,10 @@ def classify(ctx, spec, tags, pair=False):
             fine = 201 in tags and not (tags & {1, 3, 5}) and known(F_DERIV)
         elif t == 12:
             fine = excused_json()
+        elif t == 44:
+            fine = 223 in tags and 43 not in tags and known(F_GENVT)
+        elif t in (16, 19) and 223 in tags and 43 not in tags and 44 in tags:
+            fine = known(F_GENVT)              # the generic model already differs from the model (value_type dropped)
         elif t in (16, 19):
             # the generic model code / file is the JSON way back of the whole model
             fine = 12 in tags and excused_json()
@@ -966,6 +973,8 @@ def classify(ctx, spec, tags, pair=False):
                 fine = False
             elif 221 in tags:
                 fine = known(F_RESPATH)                 # a Path attribute: read_results raises
+            elif 222 in tags:
+                fine = known(F_GRADDEF)                 # gradients_iterations left at its default (None,)
             elif 220 in tags:
                 # an attribute kind the format does not carry (Model -> None, tuple -> list, int key -> text, or
                 # a value json refuses): Refuted.results_unsupported_refuted; counted, not judged
